@@ -355,13 +355,22 @@ func (c *Collection) itemSlice(readConfig *ReadRequest) []idItem {
 }
 
 func (c *Collection) genID() (string, error) {
-	return GenerateUniqueId(c.rng, func(candidate string) bool {
+	id, err := GenerateUniqueId(c.rng, func(candidate string) bool {
 		if c.idInterceptor != nil {
 			candidate = c.idInterceptor(candidate)
 		}
 		_, exists := c.byId[candidate]
 		return exists
 	})
+	if err != nil {
+		return "", err
+	}
+	// the generated id is used as a key like any other id: it has to go through the id interceptor,
+	// which is also the form the uniqueness probe above has checked.
+	if c.idInterceptor != nil {
+		id = c.idInterceptor(id)
+	}
+	return id, nil
 }
 
 type item struct {
